@@ -135,13 +135,20 @@ FLAVOURS: dict[str, dict[str, str]] = {
     "dev-mode": {"PYTHONDEVMODE": "1"},
     "latin1-io": {"PYTHONIOENCODING": "latin-1", "LC_ALL": "C", "PYTHONUTF8": "0", "PYTHONCOERCECLOCALE": "0"},
     "other-tz": {"TZ": "Asia/Kolkata"},
+    "python-O": {"_flags": "-O"},
+    "python-OO": {"_flags": "-OO"},
 }
+
+
+def flavour_flags(flavour: str) -> list[str]:
+    f = FLAVOURS.get(flavour, {}).get("_flags")
+    return [f] if f else []
 
 
 def fresh_interpreter_env(hashseed: int | str, flavour: str = "default") -> dict[str, str]:
     """Environment for a genuinely fresh interpreter that imports chartparse from the tree."""
     env = _fresh_interpreter_env(hashseed)
-    env.update(FLAVOURS.get(flavour, {}))
+    env.update({k: v for k, v in FLAVOURS.get(flavour, {}).items() if not k.startswith("_")})
     return env
 
 
